@@ -123,8 +123,24 @@ def run_history(case, ctx):
     rng, pr, s = case_rng(ctx.seed, "C11", "history", case["i"])
     n = pr.randint(1, 5)
     fixed = pr.random() < 0.5
-    init_gates = [rand_gate(pr, n) for _ in range(pr.randint(0, 6))]
-    c = Circuit([mk_gate(g, variational=(pr.random() < 0.15 and g[0] in gen.PARAM and not isinstance(g[3], str))) for g in init_gates],
+    vanish = pr.random() < 0.3
+    if vanish:
+        # simplification-prone circuits: few gates, mostly variational rotations that are tiny or come with their inverse,
+        # so that in-place passes can remove every variational / every gate of some kind
+        init_gates = []
+        for _ in range(pr.randint(1, 4)):
+            nm = pr.choice(gen.ONE_Q_ROT + gen.CTRL_ROT[:3]) if n > 1 else pr.choice(gen.ONE_Q_ROT)
+            qs = pr.sample(range(n), 2 if nm.startswith("C") else 1)
+            ang = pr.choice([1e-5, -1e-4, 0.0, pr.uniform(-3, 3)])
+            g = (nm, qs[:1], qs[1:] or None, ang)
+            init_gates.append(g)
+            if pr.random() < 0.5:
+                init_gates.append((nm, qs[:1], qs[1:] or None, -ang))
+        var_p = 0.7
+    else:
+        init_gates = [rand_gate(pr, n) for _ in range(pr.randint(0, 6))]
+        var_p = 0.15
+    c = Circuit([mk_gate(g, variational=(pr.random() < var_p and g[0] in gen.PARAM and not isinstance(g[3], str))) for g in init_gates],
                 n_qubits=n if fixed else None)
     never_fixed = not fixed
     log = [["init", init_gates, n if fixed else None]]
@@ -137,7 +153,7 @@ def run_history(case, ctx):
         ops = ["add", "add", "add_invalid", "plus", "mul", "copy", "trim", "reindex", "split", "stack", "depth", "tr_cirq", "tr_ionq",
                "tr_projectq", "tr_sympy"]
         if numeric:
-            ops += ["rsr", "rrg", "merge", "simplify"]
+            ops += ["rsr", "rrg", "merge", "simplify"] * (4 if vanish else 1)
         if numeric and unitary_only:
             ops += ["inverse", "simulate"]
         op = pr.choice(ops)
